@@ -389,7 +389,7 @@ def fold(e, env):
     return None
 
 
-def reverse_site(c, m, node, scope, prefix_name, row_expr_txt, construct):
+def reverse_site(c, m, node, scope, prefix_name, row_expr_txt, construct, rid="C07.R2"):
     """check one reverse-form site: test startswith(P+' '), strip arm removes exactly P+' ' (or ^P\\s+), prepend arm builds 'P ROW'"""
     repo = c.repo
     env = {prefix_name: P_MARK}
@@ -404,7 +404,7 @@ def reverse_site(c, m, node, scope, prefix_name, row_expr_txt, construct):
     node, cl = tests[0]
     arg = fold(cl.args[0], env)
     recv = norm(cl.func.value)
-    c.check("C07.R2", arg == P_MARK + " ", repo.loc(m, cl), f"{construct}/negated-test",
+    c.check(rid, arg == P_MARK + " ", repo.loc(m, cl), f"{construct}/negated-test",
             f"a row counts as negated when it startswith({norm(cl.args[0])}); expected <prefix> + ' ' — without the blank a first word that merely begins with the prefix letters "
             "(e.g. `notify ...` under prefix `no`) is taken for a negated rule", key_text="test")
     env[recv] = R_MARK
@@ -433,14 +433,14 @@ def reverse_site(c, m, node, scope, prefix_name, row_expr_txt, construct):
             pat = fold(n.args[0], env)
             if pat in ("^" + P_MARK + "\\s+", "^" + P_MARK + " ") and fold(n.args[1], env) == "":
                 ok_strip = True
-    c.check("C07.R2", ok_strip, repo.loc(m, node), f"{construct}/strip-arm", "the negated form is not turned back into the plain rule by removing exactly <prefix> + blank",
+    c.check(rid, ok_strip, repo.loc(m, node), f"{construct}/strip-arm", "the negated form is not turned back into the plain rule by removing exactly <prefix> + blank",
             key_text="strip")
     ok_prep = False
     for n in arm_exprs(prep_arm):
         v = fold(n, env)
         if v == P_MARK + " " + R_MARK:
             ok_prep = True
-    c.check("C07.R2", ok_prep, repo.loc(m, node), f"{construct}/prepend-arm", "the plain form is not negated as <prefix> + ' ' + row", key_text="prepend")
+    c.check(rid, ok_prep, repo.loc(m, node), f"{construct}/prepend-arm", "the plain form is not negated as <prefix> + ' ' + row", key_text="prepend")
 
 
 def r2(c):
